@@ -136,7 +136,7 @@ META = {
     "C24": {
         "ready": True,
         "technique": "runtime monitoring: the real fuel_core_poa service (MainTask + SyncTask under ServiceRunner) driven through harness-implemented ports on a paused tokio clock by seeded schedules of triggers, manual requests, network/reconciliation/predefined blocks, clock changes and port faults; offline oracle over the recorded port-call history",
-        "text": "In every produced execution (6.4k schedules quick / 48k thorough, ~70% non-trivial and distinct) each produce/commit request was at exactly the next height after what the task had been told (start header, own successful commits, successful reconciliation imports, latest_block_height replies), or within the envelope of headers still in flight on the block stream; committed timestamps never decreased along the task's own chain nor below a synced header it built on; every committed block was the producer's block, sealed by the signer for exactly that block between production and commit (signature verified); after a failed production/timeout/seal/commit (incl. lost acknowledgements) the next attempt stayed at the same height and no time from a failed attempt leaked; under Trigger::Interval every trigger-produced block started >= block_time of virtual time after its committed predecessor. Nothing is claimed about schedules not generated.",
+        "text": "In every produced execution (6.4k schedules quick / 48k thorough, ~70% non-trivial and distinct) each produce/commit request was at exactly the next height after what the task had been told (start header, own successful commits, successful reconciliation imports, latest_block_height replies), or within the envelope of headers still in flight on the block stream; committed timestamps never decreased along the task's own chain nor below a synced header it built on; every committed block was the producer's block, sealed by the signer for exactly that block between production and commit (signature verified); after a failed production/timeout/seal/commit (incl. lost acknowledgements) the next attempt stayed at the same height and no time from a failed attempt leaked; under Trigger::Interval every trigger-produced block started >= block_time of virtual time after its committed predecessor. Nothing is claimed about schedules not generated. Trigger-driven productions were always at mock-chain-tip+1, taken at the leader-state query, regardless of whether the task queried the tip.",
         "note": "Trusted: the mock ports/mock chain (accepts only tip+1 like the real importer; delivers valid chain continuations), the event recorder, the oracle's knowledge model (must-know vs may-know heights), tokio's paused-time semantics. Interval spacing is judged only for pairs without a foreign block in between; reconciliation imports after a failed import in the same batch are not judged. The harness empties fuel-core's global metrics registry between schedules (performance only).",
     },
     "C41": {
@@ -191,7 +191,7 @@ META = {
     "C07": {
         "ready": True,
         "technique": 'runtime monitoring: seeded generated chain sessions on the real upgradable executor (chaingen) + independent oracle',
-        "text": 'Held on the executions produced: native and WASM executors over the same parent agreed on produced block, Changes, statuses, events, skipped ids and error variants, dry runs, and accept/reject (with error variant) of valid and invalid blocks.',
+        "text": 'Held on the executions produced: native and WASM executors over the same parent agreed on produced block, Changes, statuses, events, skipped ids and error variants, dry runs, and accept/reject (with error variant) of valid and invalid blocks. Also compared: an executor whose native version differs from the block version (uploaded-WASM fallback path) for production, validation and dry_run under every utxo-validation override, and relayer faults inside the DA range (accept/reject + error variant).',
         "note": "Trusted: the WASM blob embedded by the harness build (rebuilt from /repo by the crate's build.rs); error variants compared by name; blocks far below 1024 txs.",
     },
 
